@@ -125,11 +125,46 @@ def run(chk):
     chk.require(n8 >= 25, f"FF8: only {n8} typed contraction operands")
     # ---- FF3
     e8.mul_identity(chk, P.methods["__mul__"])
+    e8.scalar_siblings(chk, P)
+    run_FF9(chk)
 
     from . import e3 as _e3
-    _e3.run_I5(chk, ("yastn.tn.mps",))
+    _e3.run_I5(chk, ("yastn.tn.mps",), floor=1)
     from . import e10
     e10.run_U(chk, ("yastn.tn.mps._mps_obc", "yastn.tn.mps._mps_parent", "yastn.tn.mps._compression", "yastn.tn.mps._initialize", "yastn.tn.mps._measure", "yastn.tn.mps._env"), floor1=5, floor2=1)
+
+
+def run_FF9(chk):
+    """FF9: where the virtual legs of a site tensor are created with add_leg, the leg that takes the *default* charge absorbs whatever
+    total charge the tensor still has.  The convention of the package (overlaps, environments, +, @ all rely on it) is that this is
+    the first virtual leg (axis=0, s=-1): the first default-charge add_leg executed on a tensor must be that one; a second one then
+    finds charge zero.  With the order exchanged the charge sits on the last virtual leg and every overlap with a conventional
+    MPS/MPO vanishes by symmetry."""
+    prog = chk.prog
+    chk.rule("FF9", "the virtual leg that absorbs the total charge of a site tensor (default charge of add_leg) is the first one (axis=0, s=-1)", floor=2)
+    for f in prog.all_funcs():
+        if not f.module.name.startswith("yastn.tn.mps") or "add_leg" not in A.text(f.node):
+            continue
+        par = A.enclosing_map(f.node)
+        calls = []
+        for c in A.walk_local(f.node, include_self=False):
+            if isinstance(c, ast.Call) and isinstance(c.func, ast.Attribute) and c.func.attr == "add_leg" and A.kwarg(c, "t") is None and A.kwarg(c, "leg") is None:
+                depth, root = 0, c.func.value
+                while isinstance(root, ast.Call) and isinstance(root.func, ast.Attribute) and root.func.attr == "add_leg":
+                    depth += 1
+                    root = root.func.value
+                st = A.stmt_of(c, par)
+                calls.append(((st.lineno, depth), A.text(root), c))
+        first = {}
+        for key, root, c in sorted(calls, key=lambda x: x[0]):
+            first.setdefault(root, c)
+        for root, c in first.items():
+            ax, sg = A.kwarg(c, "axis"), A.kwarg(c, "s")
+            ok = ax is not None and A.neg_const(ax) == 0 and sg is not None and A.neg_const(sg) == -1
+            chk.verdict("FF9", (f, c), f"{f.short}: first default-charge add_leg on `{root}` is `{A.short(c, 40)[-40:]}`", True if ok else False,
+                        f"{f.short}(): the first add_leg executed on `{root}` without an explicit charge is `add_leg({', '.join(k.arg + '=' + A.text(k.value) for k in c.keywords)})`: it "
+                        f"absorbs the total charge of the tensor, which by the convention of the package belongs on the first virtual leg (axis=0, s=-1); "
+                        f"a charged state built this way has zero overlap with every conventional MPS/MPO")
 
 MUTANTS = [
     ("Heff2 forgets factor", "yastn/tn/mps/_env.py", "        tmp = tensordot(self.F[n1 - 1, n1], tmp, axes=((0, 1), (3, 0)))\n        return tmp * self.op.factor\n\n    def hole(self, n):", "        tmp = tensordot(self.F[n1 - 1, n1], tmp, axes=((0, 1), (3, 0)))\n        return tmp\n\n    def hole(self, n):", "FF2"),
